@@ -125,7 +125,8 @@ Record vgrid := mkGrid {
   g_per : bool; g_tric : bool; g_box : box;
   g_ny : Z; g_nz : Z;
   g_syn : Z; g_syd : Z; g_szn : Z; g_szd : Z;
-  g_miny : Z; g_minz : Z }.
+  g_miny : Z; g_minz : Z;
+  g_fully : bool      (* second repair (triclinic cell with fewer than 5 z voxels): scan every y voxel *) }.
 
 Definition zmin_list (d : Z) (l : list Z) : Z := fold_left Z.min l d.
 Definition zmax_list (d : Z) (l : list Z) : Z := fold_left Z.max l d.
@@ -136,13 +137,13 @@ Definition zmax_list (d : Z) (l : list Z) : Z := fold_left Z.max l d.
 Definition nvox_per (L c : Z) : Z := Z.max 1 ((10 * (L / c) + 3) / 6).
 Definition nvox_open (span c : Z) : Z := Z.max 1 (fl_half span c).
 
-Definition make_grid (cell : option box) (c : Z) (xyz : list vec) : vgrid :=
+Definition make_grid_gen (fully : bool) (cell : option box) (c : Z) (xyz : list vec) : vgrid :=
   match cell with
   | Some B0 =>
       let B := reduce_box B0 in
       let ny := nvox_per (b_by B) c in
       let nz := nvox_per (b_cz B) c in
-      mkGrid true (offdiag_nonzero B) B ny nz (b_by B) ny (b_cz B) nz 0 0
+      mkGrid true (offdiag_nonzero B) B ny nz (b_by B) ny (b_cz B) nz 0 0 fully
   | None =>
       let p0 := pos xyz 0 in
       let miny := zmin_list (vy p0) (map vy xyz) in
@@ -154,8 +155,9 @@ Definition make_grid (cell : option box) (c : Z) (xyz : list vec) : vgrid :=
       mkGrid false false (mkBox 0 0 0 0 0 0) ny nz
              (if miny <? maxy then maxy - miny else c) (if miny <? maxy then ny else 1)
              (if minz <? maxz then maxz - minz else c) (if minz <? maxz then nz else 1)
-             miny minz
+             miny minz fully
   end.
+Notation make_grid := (make_grid_gen false).
 
 Definition clampZ (lo hi v : Z) : Z := Z.max lo (Z.min hi v).
 
@@ -198,6 +200,8 @@ Definition ywindow (g : vgrid) (c vyi z : Z) : list Z :=
   let s := vyi - d in
   let e := vyi + d in
   if g_per g then
+    if g_fully g && g_tric g && (g_nz g <? 5) then zrange 0 (g_ny g - 1)
+    else
     let yo := yoffset g z in
     let s' := s - cdiv (yo * g_syd g) (g_syn g) in
     let e' := e - (yo * g_syd g) / (g_syn g) in
@@ -355,11 +359,13 @@ Definition bin_lookup (tbl : list (Z * list (Z * list entry))) (wy wz : Z) : lis
   assoc wz (assoc wy tbl).
 
 (* neighbors[i] before "Add in the symmetric entries": for every atom the neighbours with a smaller index *)
-Definition nlist_half (cell : option box) (c : Z) (xyz : list vec) : list (list nat) :=
-  let g := make_grid cell c xyz in
+Definition nlist_half_gen (fully : bool) (cell : option box) (c : Z) (xyz : list vec) : list (list nat) :=
+  let g := make_grid_gen fully cell c xyz in
   let es := atoms_of xyz in
   let tbl := bin_table g es in
   map (fun e => half_list g c (bin_lookup tbl) (fst e) (snd e)) es.
+
+Notation nlist_half := (nlist_half_gen false).
 
 (* symmetric completion: neighbors[neighbors[i][j]].push_back(i) for i ascending *)
 Definition complete (H : list (list nat)) : list (list nat) :=
@@ -377,10 +383,18 @@ Definition wrap_into_cell (B : box) (p : vec) : vec :=
   let p2 := vsub p1 (vscale (vy p1 / b_by B) (bvec B)) in
   vsub p2 (vscale (vx p2 / b_ax B) (avec B)).
 
-Definition nlist_half_fix (cell : option box) (c : Z) (xyz : list vec) : list (list nat) :=
+Definition nlist_half_fix_gen (fully : bool) (cell : option box) (c : Z) (xyz : list vec) : list (list nat) :=
   match cell with
-  | Some B => nlist_half cell c (map (wrap_into_cell (reduce_box B)) xyz)
-  | None => nlist_half cell c xyz
+  | Some B => nlist_half_gen fully cell c (map (wrap_into_cell (reduce_box B)) xyz)
+  | None => nlist_half_gen fully cell c xyz
   end.
+Notation nlist_half_fix := (nlist_half_fix_gen false).
 Definition nlist_fix (cell : option box) (c : Z) (xyz : list vec) : list (list nat) :=
   complete (nlist_half_fix cell c xyz).
+
+(* second repair, on top of the first: in a triclinic cell whose z extent holds fewer than 5 voxels one voxel
+   can hold neighbours both directly and through the periodic image one cell up/down, and the y window of
+   getNeighbors is shifted by the image's c_y; scan all y voxels in that case (Voxels::getNeighbors:
+   "if (triclinic && nz < 5) { starty = 0; endy = ny-1; }") *)
+Definition nlist_fix2 (cell : option box) (c : Z) (xyz : list vec) : list (list nat) :=
+  complete (nlist_half_fix_gen true cell c xyz).
